@@ -313,3 +313,13 @@ def test_fixed_F30_returns_with_an_integer_discount():
     from msdm.core.mdp.policy import Policy
     assert [float(x) for x in Policy.calc_returns([-1, -2, -3, 0], 1)] == [-6.0, -5.0, -3.0, 0.0]
     assert [float(x) for x in Policy.calc_returns([-1, -2], np.int64(1))] == [-3.0, -2.0]
+
+
+def test_fixed_F31_entropy_regularised_pi_with_integer_reward_tensor():
+    import torch
+    from msdm.algorithms.entregpolicyiteration import entropy_regularized_policy_iteration as erpi
+    tf = torch.tensor([[[.5, .5], [1., 0.]], [[0., 1.], [.25, .75]]], dtype=torch.float64)
+    rf = torch.tensor([[[1, 0], [0, 0]], [[0, 2], [-1, 0]]])
+    a = erpi(tf, rf, 0.9, 0.5, 10000).state_values.tolist()
+    b = erpi(tf, rf.double(), 0.9, 0.5, 10000).state_values.tolist()
+    assert a == pytest.approx(b)
